@@ -14,6 +14,8 @@
 //! For more about implementing a plan, it is recommended to read the [MMTk tutorial](/docs/tutorial/Tutorial.md).
 
 mod barriers;
+#[cfg(any(kani, mmtk_verif))]
+pub use barriers::verif_hooks as verif_hooks_barriers;
 pub use barriers::BarrierSelector;
 
 mod gc_work;
